@@ -288,6 +288,116 @@ Proof.
   destruct it; simpl in *; try discriminate; rewrite ?(IH k Hr); reflexivity.
 Qed.
 
+
+(* ---- the two whitespace normalisations delete newline tokens only, and deleting newline tokens deletes
+        newline characters of the shown text only: state, jump and directives are untouched ---- *)
+Inductive del_nl_tok : list token -> list token -> Prop :=
+| dnt_nil : del_nl_tok [] []
+| dnt_keep t l l' : del_nl_tok l l' -> del_nl_tok (t :: l) (t :: l')
+| dnt_drop l l' : del_nl_tok l l' -> del_nl_tok (NL :: l) l'.
+
+Inductive del_nl_str : string -> string -> Prop :=
+| dns_nil : del_nl_str "" ""
+| dns_keep c a b : del_nl_str a b -> del_nl_str (String c a) (String c b)
+| dns_drop a b : del_nl_str a b -> del_nl_str (String "010"%char a) b.
+
+Lemma del_nl_tok_refl l : del_nl_tok l l.
+Proof. induction l; constructor; assumption. Qed.
+Lemma del_nl_str_refl a : del_nl_str a a.
+Proof. induction a; constructor; assumption. Qed.
+Lemma del_nl_tok_trans a b c : del_nl_tok a b -> del_nl_tok b c -> del_nl_tok a c.
+Proof.
+  intros H; revert c. induction H as [|t l l' H IH|l l' H IH]; intros c Hc.
+  - exact Hc.
+  - inversion Hc; subst.
+    + constructor. apply IH. assumption.
+    + apply dnt_drop. apply IH. assumption.
+  - apply dnt_drop. apply IH. exact Hc.
+Qed.
+Lemma del_nl_tok_app a a' b b' : del_nl_tok a a' -> del_nl_tok b b' -> del_nl_tok (a ++ b) (a' ++ b').
+Proof. intros H Hb. induction H; simpl; [exact Hb| |]; constructor; assumption. Qed.
+Lemma del_nl_str_app_l p a b : del_nl_str a b -> del_nl_str (p ++ a) (p ++ b).
+Proof. intros H. induction p; simpl; [exact H|]. constructor. assumption. Qed.
+
+Lemma is_nl_NL t : is_nl t = true -> t = NL.
+Proof.
+  destruct t; simpl; try discriminate. intros H. apply String.eqb_eq in H. subst. reflexivity.
+Qed.
+
+Lemma cleanup_ws_deletes_newlines l : forall rk, del_nl_tok (rev rk ++ l) (cleanup_ws l rk).
+Proof.
+  induction l as [|t r IH]; intros rk.
+  - simpl. rewrite app_nil_r. apply del_nl_tok_refl.
+  - cbn [cleanup_ws].
+    assert (Hkeep : del_nl_tok (rev rk ++ t :: r) (cleanup_ws r (t :: rk))).
+    { specialize (IH (t :: rk)). simpl in IH. rewrite <- app_assoc in IH. exact IH. }
+    assert (Hdrop : is_nl t = true -> del_nl_tok (rev rk ++ t :: r) (cleanup_ws r rk)).
+    { intros Hn. apply is_nl_NL in Hn. subst t.
+      eapply del_nl_tok_trans; [|apply IH].
+      apply del_nl_tok_app; [apply del_nl_tok_refl|]. apply dnt_drop. apply del_nl_tok_refl. }
+    destruct (is_nl t) eqn:Hn; simpl.
+    + destruct (match r with x :: _ => is_cond x | [] => false end && last_is is_nl rk); [apply Hdrop; reflexivity|].
+      destruct (last_is is_cond rk && match r with x :: _ => is_nl x | [] => false end); [apply Hdrop; reflexivity|].
+      exact Hkeep.
+    + exact Hkeep.
+Qed.
+
+Lemma drop_nls_deletes rl : del_nl_tok (rev rl) (rev (drop_nls rl)).
+Proof.
+  induction rl as [|x r IH]; [constructor|].
+  simpl. destruct (is_nl x) eqn:Hn.
+  - apply is_nl_NL in Hn. subst x. eapply del_nl_tok_trans; [|exact IH].
+    replace (rev r) with (rev r ++ []) at 2 by apply app_nil_r.
+    apply del_nl_tok_app; [apply del_nl_tok_refl|]. apply dnt_drop. constructor.
+  - apply del_nl_tok_refl.
+Qed.
+
+Lemma trim_trailing_deletes_newlines l : del_nl_tok l (trim_trailing l).
+Proof.
+  unfold trim_trailing. destruct (rev l) as [|x r] eqn:E; [apply del_nl_tok_refl|].
+  destruct (is_nl x) eqn:Hn; [|apply del_nl_tok_refl].
+  rewrite <- (rev_involutive l), E.
+  pose proof (drop_nls_deletes (x :: r)) as H. simpl in H. rewrite Hn in H.
+  simpl. (* rev (x :: drop_nls (x :: r)) = rev (drop_nls r) ++ [x] *)
+  cbn [drop_nls]. rewrite Hn. simpl.
+  apply del_nl_tok_app; [|apply del_nl_tok_refl].
+  apply drop_nls_deletes.
+Qed.
+
+Lemma top_content_deletes_newlines body : del_nl_tok (top_content_raw body 0) (top_content body).
+Proof.
+  unfold top_content. eapply del_nl_tok_trans; [|apply trim_trailing_deletes_newlines].
+  apply (cleanup_ws_deletes_newlines (top_content_raw body 0) []).
+Qed.
+
+Definition same_up_to_newlines (a b : nstate * res seq_out) : Prop :=
+  match a, b with
+  | (s1, Ok (t1, j1, d1)), (s2, Ok (t2, j2, d2)) => s1 = s2 /\ j1 = j2 /\ d1 = d2 /\ del_nl_str t1 t2
+  | (s1, Exc e1), (s2, Exc e2) => s1 = s2 /\ e1 = e2
+  | _, _ => False
+  end.
+
+Lemma same_up_to_newlines_refl a : same_up_to_newlines a a.
+Proof. destruct a as [s [[[t j] d]|e]]; simpl; repeat split. apply del_nl_str_refl. Qed.
+
+Lemma seqr_del_nl (f : token -> M tok_out) :
+  (forall s, f NL s = (s, Ok (String "010"%char EmptyString, CNext, []))) ->
+  forall l l', del_nl_tok l l' -> forall s, same_up_to_newlines (seqr f l s) (seqr f l' s).
+Proof.
+  intros Hnl l l' H. induction H as [|t l l' H IH|l l' H IH]; intros s.
+  - apply same_up_to_newlines_refl.
+  - rewrite !seqr_cons. destruct (f t s) as [s1 [[[t1 c] d1]|e]]; [|simpl; split; reflexivity].
+    destruct c; try (simpl; repeat split; apply del_nl_str_refl).
+    specialize (IH s1). unfold same_up_to_newlines in *.
+    destruct (seqr f l s1) as [sa [[[ta ja] da]|ea]], (seqr f l' s1) as [sb [[[tb jb] db]|eb]]; try contradiction.
+    + destruct IH as (-> & -> & -> & Hd). repeat split. apply del_nl_str_app_l. exact Hd.
+    + exact IH.
+  - rewrite seqr_cons, Hnl. specialize (IH s). unfold same_up_to_newlines in *.
+    destruct (seqr f l s) as [sa [[[ta ja] da]|ea]], (seqr f l' s) as [sb [[[tb jb] db]|eb]]; try contradiction.
+    + destruct IH as (-> & -> & -> & Hd). repeat split. simpl. apply dns_drop. exact Hd.
+    + exact IH.
+Qed.
+
 Section TopLevel.
 Variable orc : pyorc.
 Variable ctxkeys : list string.
@@ -301,5 +411,17 @@ Lemma passage_content_meaning body s :
   render_content orc ctxkeys (top_content body) s = sem_items orc ctxkeys (filter shown_item body) s.
 Proof.
   intros Hj Hn. rewrite Hn, (top_content_raw_plain body 0 Hj). apply compiled_block_meaning.
+Qed.
+
+(* every passage without @join markers: what the engine renders for the compiled passage is the reference meaning
+   of its lines - same final state (every effect of the statements inside blocks), same jump, same directives -
+   and the shown text is the reference text with some newline characters deleted (the two normalisations) *)
+Lemma passage_content_meaning_full body s :
+  forallb (fun it => negb (is_join it)) body = true ->
+  same_up_to_newlines (sem_items orc ctxkeys (filter shown_item body) s)
+                      (render_content orc ctxkeys (top_content body) s).
+Proof.
+  intros Hj. rewrite <- compiled_block_meaning, <- (top_content_raw_plain body 0 Hj).
+  apply seqr_del_nl; [intros s0; reflexivity|apply top_content_deletes_newlines].
 Qed.
 End TopLevel.
